@@ -98,6 +98,8 @@ def apply_op(project, op, label):
         p.history.undo(change=p.history.undo_list[op[1]])
     elif k == "redo_sel":
         p.history.redo(change=p.history.redo_list[op[1]])
+    elif k == "sync":
+        project.sync()
     elif k == "analyze":
         p.pycore.analyze_module(p.get_file(op[1]))
     else:
